@@ -25,8 +25,9 @@ from fractions import Fraction as F
 from harness import core, fr
 from harness.core import gq, gbool, gstr, glist, gopt
 from harness.props import alloc_common as ac
+from harness.props import c10_sys as cs
 
-HEADER = """From FrameModel Require Import Num.QcTac Geometry.Rect Cases.Cmp Alloc.Alloc Cases.CmpAlloc Glb.Extract Cases.CmpC10.
+HEADER = """From FrameModel Require Import Num.QcTac Geometry.Rect Cases.Cmp Alloc.Alloc Cases.CmpAlloc Glb.Extract Cases.CmpC10 Glb.System Cases.CmpC10Sys.
 Open Scope Qc_scope."""
 
 TOL = F(1, 10 ** 6)      # the tolerance of the direct oracle / SolOK monitor ("within solver tolerance")
@@ -575,7 +576,8 @@ def run_run(case):
 
 
 def run_impl(case):
-    return {"extract": run_extract, "recenter": run_recenter, "fixrule": run_fixrule, "run": run_run}[case["kind"]](case)
+    return {"extract": run_extract, "recenter": run_recenter, "fixrule": run_fixrule, "run": run_run,
+            "system": cs.run_system}[case["kind"]](case)
 
 
 # ======================================================================================
@@ -659,6 +661,8 @@ def to_coq(case, obs):
         if bad:
             return "false"
         return table_expr(rows, case["eps"], case["t"], obs["cells"], case["mods"])
+    if kind == "system":
+        return cs.to_coq_system(case, obs)
     # real run: every recorded iteration is replayed through the model
     parts = []
     for it in obs.get("iters", []):
@@ -842,6 +846,8 @@ def oracle(case, obs):
             if any(m["name"] == k and m["fixed"] for m in case["mods"]) and any(e[0] != "c" for e in row):
                 return f"fixed/not-constant: allocation of fixed module {k} is an optimisation variable"
         return None
+    if kind == "system":
+        return cs.oracle_system(case, obs)
     # real run
     if obs["status"] != "returned":
         return None
@@ -852,6 +858,8 @@ def oracle(case, obs):
 
 
 def failure_key(case, why):
+    if cs.has_clash(case):
+        return "C10/fake-name-clash"
     w = str(why or "")
     head = w.split(":")[0]
     if "/" in head and len(head) < 40:
@@ -893,6 +901,8 @@ def shrink(case):
 
 
 def dist_key(case):
+    if case["kind"] == "system":
+        return "system/" + str(case.get("sub", ""))
     return case["kind"] + "/" + str(case.get("style", case.get("init", [""])[0] if case["kind"] == "run" else ""))
 
 
@@ -901,7 +911,7 @@ def nontrivial(case):
         return len(case["cells"]) >= 2 and len(case["mods"]) >= 2
     if case["kind"] == "recenter":
         return len(case["rects"]) >= 2
-    if case["kind"] == "fixrule":
+    if case["kind"] in ("fixrule", "system"):
         return len(case["cells"]) >= 2
     return len(case["netlist"]["Modules"]) >= 3
 
